@@ -127,5 +127,143 @@ pub fn run(seed: u64, out: &str, thorough: bool) {
         }
     }
     verif::reset(false, false);
+    glue(&mut sink, &mut rng, thorough);
     sink.flush();
+}
+
+/// Layer G: the construction glue — `ConfigBuilder` (asserts, defaults), what `CacheD::new` builds,
+/// `PutOrUpdateRequestBuilder` (asserts), `updated_weight`, the default weight function.
+fn glue(sink: &mut Sink, rng: &mut Rng, thorough: bool) {
+    use tinylfu_cached::cache::cached::CacheD;
+    use tinylfu_cached::cache::config::{verif_default_weight, ConfigBuilder};
+    use tinylfu_cached::cache::put_or_update::PutOrUpdateRequestBuilder;
+    sink.both("# case pure glue");
+    let fields = |config: &tinylfu_cached::cache::config::Config<u64, u64>| {
+        let (counters, capacity, weight, pool, buf, cmd, shards, tick) = config.verif_fields();
+        format!("cfg counters={} capacity={} weight={} pool={} buf={} cmd={} shards={} tick={}", counters, capacity, weight, pool, buf, cmd, shards, tick.as_nanos())
+    };
+    // ---- ConfigBuilder: every setter with boundary arguments, chains of setters; accepted configurations of a
+    //      buildable size are handed to CacheD::new and the shape of what it built is compared as well
+    let sizes = [0usize, 1, 2, 3, 4, 5, 6, 7, 8, 12, 16, 31, 32, 33, 64, 255, 256, 1 << 20, (1 << 20) + 1, usize::MAX];
+    let mut chains: Vec<(u64, usize, i64, Vec<(String, u128)>)> = Vec::new();
+    for counters in [0u64, 1, 2, 10] { for capacity in [0usize, 1, 10] { for weight in [i64::MIN, -1, 0, 1, 100, i64::MAX] {
+        chains.push((counters, capacity, weight, vec![]));
+    } } }
+    for setter in ["pool", "buf", "cmd", "shards"] { for size in sizes { chains.push((10, 10, 100, vec![(setter.to_string(), size as u128)])); } }
+    for tick in [0u128, 1, 5_000_000_000, u64::MAX as u128 * 1_000_000_000] { chains.push((10, 10, 100, vec![("tick".to_string(), tick)])); }
+    chains.push((10, 10, 100, vec![("other".to_string(), 0)]));
+    for _ in 0..(if thorough { 2000 } else { 150 }) {
+        let length = 1 + rng.below(5);
+        let mut chain = Vec::new();
+        for _ in 0..length {
+            let setter = rng.pick(&["pool", "buf", "cmd", "shards", "shards", "tick", "other"]);
+            let size = if rng.chance(75) { rng.pick(&[1usize, 2, 3, 4, 8, 16, 64]) } else { rng.pick(&sizes) };
+            chain.push((setter.to_string(), if setter == "tick" { rng.pick(&[1_000_000u128, 1_000_000_000, 5_000_000_000]) } else { size as u128 }));
+        }
+        chains.push((1 + rng.below(40), 1 + rng.below(40) as usize, 1 + rng.below(1000) as i64, chain));
+    }
+    for (counters, capacity, weight, chain) in chains {
+        let text = chain.iter().map(|(setter, size)| format!("{}:{}", setter, size)).collect::<Vec<_>>().join(" ");
+        let chain_for_build = chain.clone();
+        let built = catch_unwind(AssertUnwindSafe(move || {
+            let mut builder = ConfigBuilder::<u64, u64>::new(counters, capacity, weight);
+            for (setter, size) in chain_for_build {
+                builder = match setter.as_str() {
+                    "pool" => builder.access_pool_size(size as usize),
+                    "buf" => builder.access_buffer_size(size as usize),
+                    "cmd" => builder.command_buffer_size(size as usize),
+                    "shards" => builder.shards(size as usize),
+                    "tick" => builder.ttl_tick_duration(Duration::new((size / 1_000_000_000) as u64, (size % 1_000_000_000) as u32)),
+                    _ => builder.key_hash_fn(Box::new(|key: &u64| *key)).weight_calculation_fn(Box::new(|_k: &u64, _v: &u64, _ttl: bool| 1)).clock(tinylfu_cached::cache::clock::SystemClock::boxed()),
+                };
+            }
+            builder.build()
+        }));
+        match built {
+            Err(_) => emit(sink, format!("glue.builder {} {} {} | {}", counters, capacity, weight, text), "panic".to_string()),
+            Ok(config) => {
+                emit(sink, format!("glue.builder {} {} {} | {}", counters, capacity, weight, text), fields(&config));
+                let (counters, capacity, weight, pool, buf, cmd, shards, tick) = config.verif_fields();
+                // only configurations whose construction allocates a reasonable amount are built
+                if counters <= 4096 && capacity <= 4096 && pool <= 4096 && buf <= 4096 && cmd <= (1 << 20) && shards <= 4096 {
+                    let shape = catch_unwind(AssertUnwindSafe(move || {
+                        let cache = CacheD::new(config);
+                        let (command_capacity, ttl_shards, pool_buffers, buffer_capacity) = cache.verif_shape();
+                        let snapshot = cache.verif_snapshot();
+                        let text = format!("shape cmd={} ttl={} pool={} buf={} rows={} rowbytes={} reset={} max={} used={} store={} kw={}",
+                            command_capacity.map(|c| c.to_string()).unwrap_or("unbounded".to_string()), ttl_shards, pool_buffers, buffer_capacity,
+                            snapshot.sketch.rows.len(), snapshot.sketch.rows.first().map(|r| r.len()).unwrap_or(0), snapshot.sketch.reset_counters_at,
+                            weight, snapshot.weight_used, snapshot.store.len(), snapshot.key_weights.len());
+                        cache.shutdown();
+                        text
+                    }));
+                    emit(sink, format!("glue.new counters={} capacity={} weight={} pool={} buf={} cmd={} shards={} tick={}", counters, capacity, weight, pool, buf, cmd, shards, tick.as_nanos()),
+                         shape.unwrap_or("panic".to_string()));
+                }
+            }
+        }
+    }
+    // ---- PutOrUpdateRequestBuilder: every sequence of up to four calls
+    let calls = ["value", "weight:-1", "weight:0", "weight:1", "weight:5", "ttl:1000000000", "rm"];
+    let mut sequences: Vec<Vec<&str>> = vec![vec![]];
+    let mut frontier: Vec<Vec<&str>> = vec![vec![]];
+    for _ in 0..4 {
+        let mut next = Vec::new();
+        for sequence in &frontier { for call in calls { let mut longer = sequence.clone(); longer.push(call); next.push(longer); } }
+        sequences.extend(next.iter().cloned());
+        frontier = next;
+    }
+    let (weight_base, weight_mod, value) = (2i64, 3u64, 7u64);
+    let ttl_entry = CacheD::<u64, u64>::verif_constants().2 as i64;
+    for sequence in sequences {
+        let for_build = sequence.clone();
+        let built = catch_unwind(AssertUnwindSafe(move || {
+            let mut builder = PutOrUpdateRequestBuilder::<u64, u64>::new(1);
+            for call in for_build {
+                builder = if call == "value" { builder.value(value) }
+                    else if call == "rm" { builder.remove_time_to_live() }
+                    else if let Some(weight) = call.strip_prefix("weight:") { builder.weight(weight.parse().unwrap()) }
+                    else { builder.time_to_live(Duration::from_nanos(call[4..].parse().unwrap())) };
+            }
+            builder.build()
+        }));
+        let input = format!("glue.upsert wbase={} wmod={} ttlentry={} v={} | {}", weight_base, weight_mod, ttl_entry, value, sequence.join(" "));
+        match built {
+            Err(_) => emit(sink, input, "panic".to_string()),
+            Ok(request) => {
+                let (has_value, weight, ttl, remove) = request.verif_fields();
+                let weight_fn = move |_k: &u64, v: &u64, ttl: bool| weight_base + (*v % weight_mod) as i64 + if ttl { ttl_entry } else { 0 };
+                let updated = request.verif_updated_weight(&weight_fn);
+                let show = |o: Option<i64>| o.map(|w| w.to_string()).unwrap_or("-".to_string());
+                emit(sink, input, format!("req value={} weight={} ttl={} rm={} uw={}", has_value as u8, show(weight), ttl.map(|t| t.as_nanos().to_string()).unwrap_or("-".to_string()), remove as u8, show(updated)));
+            }
+        }
+    }
+    // ---- the default weight function, on several key / value types, and through a default configuration
+    fn weigh<K, V>(sink: &mut Sink, key: K, value: V) {
+        for ttl in [false, true] {
+            let (weight, key_size, value_size, weighted_key_size, ttl_entry) = verif_default_weight(&key, &value, ttl);
+            emit(sink, format!("glue.weight {} {} {} {} {}", key_size, value_size, weighted_key_size, ttl_entry, ttl as u8), format!("weight {}", weight));
+        }
+    }
+    weigh(sink, 1u64, 2u64);
+    weigh(sink, 1u32, 2u8);
+    weigh(sink, "topic", "microservices");
+    weigh(sink, String::from("topic"), String::from("microservices"));
+    weigh(sink, [0u8; 100], 7u64);
+    weigh(sink, (), ());
+    weigh(sink, (1u64, 2u64, 3u64), vec![1u8, 2, 3]);
+    let config = ConfigBuilder::<u64, u64>::new(10, 10, 100).build();
+    for ttl in [false, true] {
+        let through_config = (config.weight_calculation_fn)(&5, &6, ttl);
+        let (_, key_size, value_size, weighted_key_size, ttl_entry) = verif_default_weight(&5u64, &6u64, ttl);
+        let constants_entry = CacheD::<u64, u64>::verif_constants().2;
+        emit(sink, format!("glue.weight {} {} {} {} {}", key_size, value_size, weighted_key_size, ttl_entry, ttl as u8),
+             if constants_entry == ttl_entry { format!("weight {}", through_config) } else { format!("weight {} ttl-entry-mismatch:{}:{}", through_config, constants_entry, ttl_entry) });
+    }
+    // the default key hash is a function of the key alone (same key, same hash; the sketch relies on nothing else)
+    let first = (config.key_hash_fn)(&12345);
+    let second = (config.key_hash_fn)(&12345);
+    let other = (config.key_hash_fn)(&12346);
+    emit(sink, "glue.hash".to_string(), format!("hash stable={} distinct={}", (first == second) as u8, (first != other) as u8));
 }
